@@ -65,9 +65,7 @@ func (s setSubj) queries(order int, keys []string) map[string]string {
 	members := func() { out["Members"] = strings.Join(s.s.Members(), ",") }
 	length := func() { out["Length#"] = fmt.Sprint(s.s.Length()) }
 	fs := []func(){contains, members, length}
-	if order == 1 {
-		fs = []func(){length, members, contains}
-	}
+	fs = append(fs[order%len(fs):], fs[:order%len(fs)]...) // replica i asks query i FIRST (before any query that cleans up)
 	for _, f := range fs {
 		f()
 	}
@@ -106,9 +104,7 @@ func (s mapSubj) queries(order int, keys []string) map[string]string {
 	svals := func() { out["SortedValues#"] = fmt.Sprint(len(s.m.SortedValues())) }
 	length := func() { out["Length#"] = fmt.Sprint(s.m.Length()) }
 	fs := []func(){get, ks, sk, vals, svals, length}
-	if order == 1 {
-		fs = []func(){length, svals, vals, sk, ks, get}
-	}
+	fs = append(fs[order%len(fs):], fs[:order%len(fs)]...) // replica i asks query i FIRST (before any query that cleans up)
 	for _, f := range fs {
 		f()
 	}
@@ -146,8 +142,16 @@ var keys = []string{"a", "b"}
 
 func exec(kind string, h []event) (string, string, *seqx.Failure) {
 	clk := clockwork.NewFakeClockAt(t0)
-	// two replicas: same history, queries in opposite orders after every event
-	subj := []subject{build(kind, clk), build(kind, clk)}
+	// one replica per query: same history, and after every event replica i asks query i first, so that each
+	// query is also evaluated on a structure no other query has cleaned up since the clock moved
+	nrep := 3
+	if kind == "map" {
+		nrep = 6
+	}
+	var subj []subject
+	for i := 0; i < nrep; i++ {
+		subj = append(subj, build(kind, clk))
+	}
 	model := map[string]time.Time{} // key -> expiry
 	var last string
 	for step, e := range h {
@@ -217,9 +221,11 @@ func exec(kind string, h []event) (string, string, *seqx.Failure) {
 			}
 			answers = append(answers, ref)
 		}
-		if answers[0] != answers[1] {
-			return "", "", &seqx.Failure{Sig: kind + ":query-order-dependent" + instTag(atInstant),
-				What: fmt.Sprintf("step %d %v: answers depend on query order: %q vs %q", step, e, answers[0], answers[1])}
+		for i := 1; i < len(answers); i++ {
+			if answers[0] != answers[i] {
+				return "", "", &seqx.Failure{Sig: kind + ":query-order-dependent" + instTag(atInstant),
+					What: fmt.Sprintf("step %d %v: answers depend on query order: %q (replica 0) vs %q (replica %d)", step, e, answers[0], answers[i], i)}
+			}
 		}
 		got := answers[0]
 		if got != strings.Join(must, ",") && got != strings.Join(may, ",") {
@@ -237,7 +243,10 @@ func exec(kind string, h []event) (string, string, *seqx.Failure) {
 		ms = append(ms, fmt.Sprintf("%s:%d", k, clip(e.Sub(now))))
 	}
 	sort.Strings(ms)
-	canon := kind + "|" + strings.Join(ms, ";") + "|" + subj[0].phys(now) + "|" + subj[1].phys(now)
+	canon := kind + "|" + strings.Join(ms, ";")
+	for _, sj := range subj {
+		canon += "|" + sj.phys(now)
+	}
 	return canon, last, nil
 }
 
